@@ -433,53 +433,141 @@ func (m *machine) slice(c interface{}, hasLo bool, lo interface{}, hasHi bool, h
 
 type valUndet struct{}
 
-// in: membership in a slice.  Equality of an int64 with elements of another
-// kind belongs to C06; the result is then not compared (valUndet returned).
+// decimalNumeral: is s written as -?digits(.digits)? (then it denotes a number
+// without any doubt); strings that merely look numeric to some parser (" 1",
+// "+1", "1e3", "0x10", "true") are left open.
+func decimalNumeral(s string) (f float64, isNumeral, open bool) {
+	t := strings.TrimPrefix(s, "-")
+	digits := func(x string) bool {
+		if x == "" {
+			return false
+		}
+		for _, c := range x {
+			if c < '0' || c > '9' {
+				return false
+			}
+		}
+		return true
+	}
+	parts := strings.SplitN(t, ".", 2)
+	if digits(parts[0]) && (len(parts) == 1 || digits(parts[1])) && len(t) <= 15 {
+		f, _ = strconv.ParseFloat(s, 64)
+		return f, true, false
+	}
+	if looksNumeric(s) {
+		return 0, false, true
+	}
+	return 0, false, false
+}
+
+// langEq is the language's equality as property C06 states it: two values of
+// the same primitive type are equal exactly when Go's == says so; an integer
+// and a float are equal when they are numerically equal; a string and a number
+// are equal exactly when the string is a decimal numeral denoting that number;
+// nil equals only nil.  determined=false where the properties leave the answer
+// open (bool against another kind, container against container, odd numerals).
+func langEq(a, b interface{}) (eq, determined bool) {
+	if a == nil || b == nil {
+		return a == nil && b == nil, true
+	}
+	num := func(v interface{}) (float64, bool) {
+		switch x := v.(type) {
+		case int64:
+			if x > 1<<52 || x < -(1<<52) {
+				return 0, false
+			}
+			return float64(x), true
+		case float64:
+			return x, true
+		}
+		return 0, false
+	}
+	switch x := a.(type) {
+	case int64, float64:
+		fa, ok := num(x)
+		if !ok {
+			return false, false
+		}
+		switch y := b.(type) {
+		case int64, float64:
+			fb, ok := num(y)
+			if !ok {
+				return false, false
+			}
+			return fa == fb, true
+		case string:
+			fb, isNum, open := decimalNumeral(y)
+			if open {
+				return false, false
+			}
+			return isNum && fa == fb, true
+		case bool:
+			return false, false
+		}
+		return false, true // a number against a container
+	case string:
+		switch y := b.(type) {
+		case string:
+			return x == y, true
+		case int64, float64:
+			return langEq(b, a)
+		case bool:
+			return false, false
+		}
+		return false, true
+	case bool:
+		if y, ok := b.(bool); ok {
+			return x == y, true
+		}
+		return false, false
+	}
+	// a is a container
+	switch b.(type) {
+	case int64, float64, string:
+		return false, true
+	}
+	return false, false
+}
+
+// in: membership in a slice, element by element with langEq on the CURRENT
+// contents (never by converting the item to the element type).  When no
+// element is certainly equal and some comparison is open, the result is not
+// compared (valUndet).
 func (m *machine) in(k, c interface{}) interface{} {
-	ki, kIsInt := k.(int64)
+	var elems []interface{}
 	switch cv := c.(type) {
 	case []interface{}:
-		if !kIsInt {
-			return valUndet{}
-		}
-		found := false
-		und := false
+		elems = cv
+	case []int64:
 		for _, e := range cv {
-			switch x := e.(type) {
-			case int64:
-				if x == ki {
-					found = true
-				}
-			case nil, []interface{}, map[interface{}]interface{}:
-			default:
-				und = true
-			}
-			if found {
-				break
-			}
+			elems = append(elems, e)
 		}
-		if found {
+	case []string:
+		for _, e := range cv {
+			elems = append(elems, e)
+		}
+	case []float64:
+		for _, e := range cv {
+			elems = append(elems, e)
+		}
+	default:
+		fail()
+	}
+	open := false
+	for _, e := range elems {
+		eq, det := langEq(k, e)
+		if !det {
+			open = true
+			continue
+		}
+		if eq {
 			return true
 		}
-		if und {
-			return valUndet{}
-		}
-		return false
-	case []int64:
-		if !kIsInt {
-			return valUndet{}
-		}
-		for _, e := range cv {
-			if e == ki {
-				return true
-			}
-		}
-		return false
-	case []string, []float64:
+	}
+	if open {
 		return valUndet{}
 	}
-	fail()
-	return nil
+	return false
 }
 
 func (m *machine) member(c interface{}, name string) interface{} {
